@@ -5,7 +5,7 @@ sys.path.insert(0, '/verif')
 from rlxcheck.repo import Repo
 patch, qual = sys.argv[1], sys.argv[2]
 d = tempfile.mkdtemp(dir='/var/tmp')
-subprocess.run(f"git -C /repo archive HEAD rl_blox | tar -x -C {d}", shell=True, check=True)
+subprocess.run(f"git -C /repo archive HEAD | tar -x -C {d}", shell=True, check=True)
 if patch != '-':
     subprocess.run(f"cd {d} && patch -p1 -s < {os.path.abspath(patch)}", shell=True, check=True)
 r = Repo(d)
